@@ -155,6 +155,26 @@ def _d1_d2(chk, fb):
             chk.refuted("D1", f.key, "rebuild-after-caches", f.loc(late[0][1]), "'%s' is refreshed after the classes were rebuilt: the rebuild used the old value" % late[0][0])
         else:
             chk.proved("D1", f.key, "rebuild-after-caches", f.loc(rb[0]), "all member refreshes precede the rebuild")
+        # no cache is read before it has been reloaded (a derived member computed from the previous parameter value)
+        stale = []
+        for fld, nodes in assigned.items():
+            refresh = [a for a in nodes if any(is_call(x) and x["callee"]["name"] in ("getParameterValue", "getParameter_", "getParameter") for x in walk(a))]
+            if not refresh:
+                continue
+            for r in f.all_nodes():
+                if r["k"] == "MemberExpr" and r["member"]["kind"] == "field" and r["member"].get("this") and r["member"]["name"] == fld:
+                    par = f.parent.get(r["id"])
+                    if par is not None and par["k"] == "BinaryOperator" and par["op"] == "=" and strip(kids(par)[0]) is r:
+                        continue
+                    for a in refresh:
+                        if e1.before_in_function(cfg, r, a) and not e1.before_in_function(cfg, a, r) and not f.contains(a, r):
+                            stale.append((fld, r, a))
+        if stale:
+            fld, r, a = stale[0]
+            chk.refuted("D2", f.key, "read-before-reload:" + fld, f.loc(r), "'%s' is read at line %s before it is reloaded from its parameter at line %s: whatever is computed there uses the previous parameter value" % (fld, r.get("l"), a.get("l")),
+                        witness={"history": "construct; change the parameter behind '%s'; query the classes" % fld})
+        elif any(any(is_call(x) and x["callee"]["name"] == "getParameterValue" for x in walk(a)) for nodes in assigned.values() for a in nodes):
+            chk.proved("D2", f.key, "reload-before-use", f.loc(), "no parameter cache is read before its reload")
         # ---- D2 caches
         for fld, (pname, ctor) in sorted(caches.items()):
             hits = [a for a in assigned.get(fld, []) if any(is_call(x) and x["callee"]["name"] == "getParameterValue" and any(s["k"] == "StringLiteral" and s["val"] == pname for s in walk(x)) for x in walk(a))]
